@@ -13,6 +13,10 @@ struct Prop {
 fn table() -> Vec<Prop> {
     vec![
         Prop { id: "C01", level: "exploration", run: props::c01::run, replay: props::c01::replay },
+        Prop { id: "C02", level: "exploration", run: props::c02::run, replay: props::c02::replay },
+        Prop { id: "C03", level: "exploration", run: props::c03::run, replay: props::c03::replay },
+        Prop { id: "C04", level: "exploration", run: props::c04::run, replay: props::c04::replay },
+        Prop { id: "C16", level: "exploration", run: props::c16::run, replay: props::c16::replay },
         Prop { id: "C15", level: "exploration", run: props::c15::run, replay: props::c15::replay },
         Prop { id: "C17", level: "exploration", run: props::c17::run, replay: props::c17::replay },
         Prop { id: "C18", level: "exploration", run: props::c18::run, replay: props::c18::replay },
@@ -48,7 +52,10 @@ fn main() {
                 std::process::exit(2)
             };
             let run = Run::new(&root(), p.id, tier, seed, p.level);
-            (p.run)(&run);
+            if std::panic::catch_unwind(std::panic::AssertUnwindSafe(|| (p.run)(&run))).is_err() {
+                println!("INCONCLUSIVE property={} the harness itself panicked (see stderr); this is not a verdict about dlt-core", p.id);
+                std::process::exit(2);
+            }
             std::process::exit(run.finish());
         }
         Some("replay") => {
